@@ -240,3 +240,8 @@ func verifRender(v interface{}) string {
 	}
 	return fmt.Sprintf("<%T>", v)
 }
+
+// verifAbstractFloat: value the model does not compute (decimal conversion).
+var verifAbstractUsed bool
+
+func verifAbstractFloat() float64 { verifAbstractUsed = true; return math.NaN() }
